@@ -134,7 +134,8 @@ def timelines(draw, tier="quick", focus=False):
     inst = {}
     for u in pool:
         lab, w, l, h, yk, tilt = draw(_INST)
-        inst[u] = {"label": lab, "size": [w, l, h], "yaw_kind": yk, "tilt": tilt == 0}
+        # static: an object that keeps position and velocity in every frame and only turns (turning on the spot)
+        inst[u] = {"label": lab, "size": [w, l, h], "yaw_kind": yk, "tilt": tilt == 0, "static": (w * 1000) % 4 < 1}
     # frames around the query are densely populated (3/4 per uuid), the others sparsely (1/4): they only matter as
     # wrong candidates of the lookup, and every object costs ~10 draws
     presence = []
@@ -145,6 +146,7 @@ def timelines(draw, tier="quick", focus=False):
     frame = draw(st.sampled_from(["base_link", "map"]))
     frames = []
     last_yaw = {}
+    first_state = {}
     for i in range(n):
         objs = []
         for u in presence[i]:
@@ -169,6 +171,15 @@ def timelines(draw, tier="quick", focus=False):
             # P6: instances seen in several samples always have a velocity
             if occurrences[u] >= 2 or has_vel:
                 o["vel"] = [vx, vy, 0.0]
+            if meta["static"]:
+                if u in first_state:
+                    o["p"] = list(first_state[u][0])
+                    if first_state[u][1] is not None:
+                        o["vel"] = list(first_state[u][1])
+                    else:
+                        o.pop("vel", None)
+                else:
+                    first_state[u] = (list(o["p"]), list(o["vel"]) if "vel" in o else None)
             objs.append(o)
         frames.append({"gap": gaps[i], "ego": draw(_EGO), "objs": objs})
 
